@@ -173,6 +173,9 @@ Definition invgamma_logpdf (alpha beta lg_a theta : T) : T :=
 Definition const_value (m : nat) (S theta : T) : T :=
   sub N (opp N (div N S theta)) (mul N (ofNat N m) (nln N theta)).
 
+(* ln(2 pi) from a value of pi (the interval run uses Interval's enclosure of pi) *)
+Definition ln2pi_of (pi : T) : T := nln N (mul N two pi).
+
 (* ---- entry points on exact inputs (what the correspondence runs) ---- *)
 Inductive qvariant := QPlain | QWeighted (w : list Q) | QTimeAware (heights : list Q) (rescale : bool).
 Definition variant_q (v : qvariant) : variant :=
